@@ -27,6 +27,17 @@ TABLE={ # id: (property, demo file, package dir, -run pattern, needs)
  "C03-b":("C03","zz_seed_demo_test.go","database","TestSeedDemo","a stored header whose own work is >= 2^64 (any realistic mainnet difficulty), read back through the SQL repository"),
  "C06-a":("C06","zz_seed_demo_test.go","transports/p2p/p2psync","TestSeedDemo","the sync peer disconnects while still ahead of the tip and the random choice of the next sync peer lands on it again"),
  "C16-b":("C16","zz_seed_demo_test.go","transports/http/endpoints/api/headers","TestSeedDemo","GET byHeight with a negative numeric count on the real SQL repository"),
+ "C02-b":("C02","zz_seed_demo_test.go","database/repository","TestSeedDemo","a verification item at exactly the current tip height with the tip's own merkle root (real SQL)"),
+ "C05-b":("C05","zz_seed_demo_test.go","service","TestSeedDemo","a storage error or kill inside the multi-row promotion of a reorganisation that promotes at least two stored headers (real SQL)"),
+ "C07-b":("C07","zz_seed_demo_test.go","transports/p2p/p2psync","TestSeedDemo","default engine, a batch that contains the header matching the FINAL checkpoint"),
+ "C08-b":("C08","zz_seed_demo_test.go","database/repository","TestSeedDemo","lastEvaluatedKey = the genesis merkle root (e.g. a walk with batchSize 1)"),
+ "C09-b":("C09","zz_seed_demo_test.go","transports/http/endpoints/api/access","TestSeedDemo","a token that was accepted at least once, then revoked by the admin, then presented again in the same process"),
+ "C10-b":("C10","zz_seed_demo_test.go","database/repository","TestSeedDemo","a presented value that is not an issued token but matches one as a LIKE pattern (%, _, or different letter case), real SQL"),
+ "C11-b":("C11","zz_seed_demo_test.go","service","TestSeedDemo","a submission whose state the fork logic rewrites (low-work fork of a longest-chain block; reorganisation)"),
+ "C13-b":("C13","zz_seed_demo_test.go","service","TestSeedDemo","a stop hash on the longest chain above height 2000, fewer than 2000 blocks ahead of the start, below the tip"),
+ "C14-b":("C14","zz_seed_demo_test.go","internal/wire","TestSeedDemo","a frame with zero payload length (verack, getaddr, sendheaders, mempool) and a wrong checksum"),
+ "C17-b":("C17","zz_seed_demo_test.go","database","TestSeedDemo","an exported store that holds at least one ORPHAN header"),
+ "C19-b":("C19","zz_seed_demo_test.go","domains","TestSeedDemo","difficulty bits whose target is 2^k-1 (exponent <= 3, mantissa 1,3,7,...,0x7fffff)"),
 }
 ENV=dict(os.environ,GOFLAGS="-mod=mod",GOPROXY="off")
 def run(cmd,cwd,timeout=1500):
